@@ -46,6 +46,22 @@ def timeout(tier):
 from vf.gen.values import DST_ZONES, DstTz  # noqa: E402  (zones whose offset depends on the date, shared with the model generators)
 
 
+class BareTz(datetime.tzinfo):
+    """The least a tzinfo can be: an offset.  tzname() is not implemented (the base class raises NotImplementedError)."""
+
+    def __init__(self, minutes):
+        self._off = datetime.timedelta(minutes=minutes)
+
+    def utcoffset(self, dt):
+        return self._off
+
+    def dst(self, dt):
+        return None
+
+    def __repr__(self):
+        return f"BareTz({self._off!r})"
+
+
 class FixedTz(datetime.tzinfo):
     """A custom tzinfo subclass (not datetime.timezone)."""
 
@@ -159,6 +175,13 @@ def check_reject(ctx, conv, text, what, case):
     ctx.violation(f"reject/accepted/{what}", f"{type(conv).__name__}().convert({text!r}) -> {got!r} (must be refused: {what})", case)
 
 
+def zname(value):
+    try:
+        return value.tzname()
+    except NotImplementedError:  # a tzinfo that gives an offset and nothing else
+        return None
+
+
 def zone_name_verbatim(ctx, text, name, case, prefix=""):
     """[offset:name] - the name is the zone's own name, character for character (it is data, not a template)."""
     import re
@@ -183,7 +206,7 @@ def check_write_dt(ctx, DT, value, case):
     if not isinstance(text, str) or not R.written_datetime_ok(text):
         ctx.violation("write/bad-grammar", f"unconvert({value!r}) -> {text!r} is not YYYYMMDDHHMMSS.XXX[+h[.mm][:name]]", case)
         return
-    name = value.tzname()
+    name = zname(value)
     if name is not None and any(c in name for c in "[]<&"):
         ctx.count("unspecified_skipped")
         return
@@ -231,7 +254,7 @@ def check_write_time(ctx, TM, value, case):
     if not isinstance(text, str) or not R.written_datetime_ok(text, with_date=False):
         ctx.violation("time/write/bad-grammar", f"Time().unconvert({value!r}) -> {text!r}", case)
         return
-    if not zone_name_verbatim(ctx, text, value.tzname(), case, "time/"):
+    if not zone_name_verbatim(ctx, text, zname(value), case, "time/"):
         return
     # the value as the models take it: handed to convert() as a Python time with its own offset, it must come out as the same
     # time of day in UTC
@@ -397,13 +420,17 @@ def run_shard(ctx):
                 datetime.timezone(datetime.timedelta(minutes=off)) if name is None else FixedTz(off, name))
             if j % 3 == 2:
                 tz = FixedTz(off, name)
+            bare = (off + j) % 5 == 0
+            if bare:
+                tz, name = BareTz(off), None  # aware (it has an offset), and has no name to give
+                ctx.count("values_in_zones_without_tzname")
             if (y, mo, d) == (2199, 12, 31) or (y, mo, d) == (1900, 1, 1):
                 y = 2100  # keep instant +- offset inside 1900-2200
             v = datetime.datetime(y, mo, d, h, mi, s, us, tzinfo=tz)
-            check_write_dt(ctx, DT, v, {"op": "write-dt", "fields": [y, mo, d, h, mi, s, us], "off": off, "name": name, "custom_tz": isinstance(tz, FixedTz)})
+            check_write_dt(ctx, DT, v, {"op": "write-dt", "fields": [y, mo, d, h, mi, s, us], "off": off, "name": name, "custom_tz": isinstance(tz, FixedTz), "bare_tz": bare})
             ctx.distinct(("W", y, mo, d, h, mi, s, us, off, name))
-            tv = datetime.time(h, mi, s, us, tzinfo=datetime.timezone(datetime.timedelta(minutes=off), name or "Z"))
-            check_write_time(ctx, TM, tv, {"op": "write-time", "fields": [h, mi, s, us], "off": off, "name": name})
+            tv = datetime.time(h, mi, s, us, tzinfo=BareTz(off) if bare else datetime.timezone(datetime.timedelta(minutes=off), name or "Z"))
+            check_write_time(ctx, TM, tv, {"op": "write-time", "fields": [h, mi, s, us], "off": off, "name": name, "bare_tz": bare})
         if off % 131 == 0:
             ctx.sample({"op": "write", "value": repr(v), "text": DT.unconvert(v)})
     # (c') zones whose offset depends on the date: around both yearly offset changes, on either side and inside the repeated hour
@@ -502,10 +529,10 @@ def replay(ctx, case):
     elif op == "reject-time":
         check_reject(ctx, TM, case["text"], case["what"], case)
     elif op == "write-dt":
-        tz = FixedTz(case["off"], case["name"]) if case.get("custom_tz") else datetime.timezone(datetime.timedelta(minutes=case["off"]), *( [case["name"]] if case["name"] is not None else []))
+        tz = BareTz(case["off"]) if case.get("bare_tz") else FixedTz(case["off"], case["name"]) if case.get("custom_tz") else datetime.timezone(datetime.timedelta(minutes=case["off"]), *( [case["name"]] if case["name"] is not None else []))
         check_write_dt(ctx, DT, datetime.datetime(*case["fields"], tzinfo=tz), case)
     elif op == "write-dt-dst":
         std, shift, names = DST_ZONES[case["zone"]]
         check_write_dt(ctx, DT, datetime.datetime(*case["naive"], tzinfo=DstTz(std, shift, names), fold=case["fold"]), case)
     elif op == "write-time":
-        check_write_time(ctx, TM, datetime.time(*case["fields"], tzinfo=datetime.timezone(datetime.timedelta(minutes=case["off"]), case["name"] or "Z")), case)
+        check_write_time(ctx, TM, datetime.time(*case["fields"], tzinfo=BareTz(case["off"]) if case.get("bare_tz") else datetime.timezone(datetime.timedelta(minutes=case["off"]), case["name"] or "Z")), case)
